@@ -1,10 +1,197 @@
-import GoBk.Base.Bytes
+import GoBk.Model.RealPrims
+import GoBk.Model.HeapFns
 /-
-  Driver ops `mem.*` (C16): heap-level models of the argument-handling of exported functions,
-  run on a canary-backed window; prints the whole backing array afterwards.
+  Driver ops `mem.*` (C16): correspondence of the heap-level models (GoBk/Model/HeapFns.lean) with
+  the real code.
+
+      mem.<fn> <prefixlen> <spare> <datahex> [more args]
+
+  Both sides build ONE backing array = `prefixlen` canary bytes ‖ data ‖ `spare` canary bytes (canary
+  byte at index i = 0xA5 xor (i mod 256)), pass the window
+  `backing[prefixlen : prefixlen+len(data) : prefixlen+len(data)+spare]` as the slice argument, run
+  the function and print
+
+      ok <hex of the whole backing array afterwards> <result | err>
+
+  Here the backing array comes from running the HEAP-LEVEL model on the heap `#[backing]` (an append
+  into the spare capacity or an in-place write would show up in it); the result is the VALUE-level
+  model's; where the heap-level model also produces the result the two are compared and
+  `model-mismatch` is printed when they differ.
 -/
 namespace Driver
+open GoBk GoBk.Bytes GoBk.Heap GoBk.HeapFns GoBk.Spec
 
-def runMemOp (_op : String) (_args : List String) : Option String := none
+def mpr : Prims := realPrims
+def mFuel : Nat := 64
+
+def mhx (b : Bytes) : String := if b.isEmpty then "-" else toHex b
+def mnhx (n : Nat) : String := String.ofList (Nat.toDigits 16 n)
+def munhex (s : String) : Option Bytes := if s == "-" then some [] else ofHex s
+def munnat (s : String) : Option Nat := (munhex (if s.length % 2 == 1 then "0" ++ s else s)).map beNat
+def munint (s : String) : Option Int :=
+  if s.startsWith "-" && s != "-" then (munnat (s.drop 1).toString).map fun n => - (n : Int)
+  else (munnat s).map fun n => (n : Int)
+def muntape (s : String) : Option Rng.Tape :=
+  if s == "-" then some []
+  else (s.splitOn ",").mapM fun r => if r == "!" then some none else (munhex r).map some
+def mptStr (p : Pt) : String := mnhx p.1 ++ " " ++ mnhx p.2
+def mb2s (b : Bool) : String := if b then "1" else "0"
+
+def canary (i : Nat) : UInt8 := 0xA5 ^^^ UInt8.ofNat (i % 256)
+
+/-- the canary-backed array holding `data` at `[p, p+len)` with `spare` canary bytes behind it -/
+def mkBacking (p spare : Nat) (data : Bytes) : Bytes :=
+  (List.range p).map canary ++ data ++ (List.range spare).map (fun i => canary (p + data.length + i))
+
+/-- the window `backing[p : p+len : p+len+spare]` as a slice of array `a` -/
+def mkWindow (a p spare : Nat) (data : Bytes) : Slice := ⟨a, p, data.length, data.length + spare⟩
+
+structure Win where
+  heap : Heap
+  s : Slice
+
+def mkWin (p spare : Nat) (data : Bytes) : Win := ⟨⟨#[mkBacking p spare data]⟩, mkWindow 0 p spare data⟩
+
+def okLine (h : Heap) (res : String) : String := "ok " ++ mhx (h.get 0) ++ " " ++ res
+
+/-- compare the heap-level result with the value-level one -/
+def agree (hv vv : Option Bytes) (show_ : Bytes → String) : String :=
+  if hv != vv then "model-mismatch" else
+  match vv with
+  | some b => show_ b
+  | none => "err"
+
+def chainCodeFix : Bytes := (List.range 32).map fun i => UInt8.ofNat (i * 7 + 1)
+
+/-- a key object whose `key` slice is the window; the other fields are ordinary full arrays 1,2,3 -/
+def mkXKey (p spare : Nat) (key : Bytes) (isPriv : Bool) : Heap × XKeyH :=
+  let version : Bytes := if isPriv then [0x04, 0x88, 0xad, 0xe4] else [0x04, 0x88, 0xb2, 0x1e]
+  let h : Heap := ⟨#[mkBacking p spare key, chainCodeFix, [0,0,0,0], version]⟩
+  (h, { key := mkWindow 0 p spare key, chainCode := ⟨1, 0, 32, 32⟩, parentFP := ⟨2, 0, 4, 4⟩,
+        version := ⟨3, 0, 4, 4⟩, childNum := 0, depth := 0, isPrivate := isPriv })
+
+def runMemOp' (op : String) (p spare : Nat) (data : Bytes) (a : List String) : Option String :=
+  let w := mkWin p spare data
+  match op, a with
+  | "mem.encrypt", [x, y, t] => do
+    let x ← munnat x; let y ← munnat y; let t ← muntape t
+    let r := encrypt mpr w.heap (x, y) w.s t
+    let vv := (Ecies.encrypt mpr (x, y) data t).map (·.1)
+    pure (okLine r.heap (agree (r.val.map r.heap.read) vv mhx))
+  | "mem.encrypt_old", [x, y, t] => do      -- the pre-fix padding step, for the negative test
+    let x ← munnat x; let y ← munnat y; let t ← muntape t
+    let r := encrypt_old mpr w.heap (x, y) w.s t
+    pure (okLine r.heap (match r.val.map r.heap.read with | some c => mhx c | none => "err"))
+  | "mem.decrypt", [d] => do
+    let d ← munnat d
+    let r := decrypt mpr w.heap d w.s
+    pure (okLine r.heap (agree (r.val.map r.heap.read) (Ecies.decrypt mpr d data) mhx))
+  | "mem.mnemonic", [pass] => do
+    let pass ← munhex pass
+    let r := mnemonic mpr w.heap w.s pass
+    let vv := Bip39.mnemonic mpr data pass
+    pure (okLine r.heap (if r.val != vv then "model-mismatch" else
+      match vv with | some (m, s) => mhx m ++ " " ++ mhx s | none => "err"))
+  | "mem.mnemonic_old", [pass] => do
+    let pass ← munhex pass
+    let r := mnemonic_old mpr w.heap w.s pass
+    pure (okLine r.heap (match r.val with | some (m, s) => mhx m ++ " " ++ mhx s | none => "err"))
+  | "mem.cfbdec", [k] => do
+    let k ← munhex k
+    let r := cryptoDecrypt mpr w.heap k w.s
+    pure (okLine r.heap (agree r.val (Ecies.cfbDecrypt mpr k data) mhx))
+  | "mem.cfbdec_old", [k] => do
+    let k ← munhex k
+    let r := cryptoDecrypt_old mpr w.heap k w.s
+    pure (okLine r.heap (match r.val with | some b => mhx b | none => "err"))
+  | "mem.cfbenc", [k, t] => do
+    let k ← munhex k; let t ← muntape t
+    let r := cryptoEncrypt mpr w.heap k w.s t
+    let vv := (Ecies.cfbEncrypt mpr k data t).map (·.1)
+    pure (okLine r.heap (agree (r.val.map r.heap.read) vv mhx))
+  | "mem.checkenc", [v] => do
+    let v ← v.toNat?
+    let r := checkEncode mpr w.heap w.s (UInt8.ofNat v)
+    pure (okLine r.heap (agree (some r.val) (some (Base58.checkEncode mpr data (UInt8.ofNat v))) mhx))
+  | "mem.checkdec", [] => do
+    -- the argument is a string: `string(window)` is a copy, the window itself is not passed
+    let r := checkDecode mpr w.heap (w.heap.read w.s)
+    let hv := r.val.map fun (s, v) => (r.heap.read s, v)
+    let vv := Base58.checkDecode mpr data
+    pure (okLine r.heap (if hv != vv then "model-mismatch" else
+      match vv with | some (pl, v) => mhx pl ++ " " ++ toString v.toNat | none => "err"))
+  | "mem.sign", [d] => do
+    let d ← munnat d
+    let r := readOnly (Ecdsa.sign mpr mFuel d) w.heap w.s
+    pure (okLine r.heap (match r.val with | some (r, s) => mnhx r ++ " " ++ mnhx s | none => "err"))
+  | "mem.signcompact", [d, c] => do
+    let d ← munnat d
+    let pub := Curve.scalarBaseMult (natBE d)
+    let r := signCompact mpr mFuel w.heap d pub w.s (c == "1")
+    pure (okLine r.heap (agree (r.val.map r.heap.read) (Ecdsa.signCompact mpr mFuel d pub data (c == "1")) mhx))
+  | "mem.verify", [x, y, r, s] => do
+    let x ← munnat x; let y ← munnat y; let r ← munint r; let s ← munint s
+    let res := readOnly (fun hsh => Ecdsa.verify (x, y) hsh r s) w.heap w.s
+    pure (okLine res.heap (mb2s res.val))
+  | "mem.parsepub", [] =>
+    let r := readOnly Ecdsa.parsePubKey w.heap w.s
+    some (okLine r.heap (match r.val with | some q => mptStr q | none => "err"))
+  | "mem.parsesig", [] =>
+    let r := readOnly Der.parseLax w.heap w.s
+    some (okLine r.heap (match r.val with | some (r, s) => mnhx r ++ " " ++ mnhx s | none => "err"))
+  | "mem.parseder", [] =>
+    let r := readOnly Der.parseDER w.heap w.s
+    some (okLine r.heap (match r.val with | some (r, s) => mnhx r ++ " " ++ mnhx s | none => "err"))
+  | "mem.sbmul", [] =>
+    let r := readOnly Curve.scalarBaseMult w.heap w.s
+    some (okLine r.heap (mptStr r.val))
+  | "mem.smul", [x, y] => do
+    let x ← munnat x; let y ← munnat y
+    let r := readOnly (Curve.scalarMult (x, y)) w.heap w.s
+    pure (okLine r.heap (mptStr r.val))
+  | "mem.privbytes", [] =>
+    let r := readOnly Ecdsa.privKeyFromBytes w.heap w.s
+    some (okLine r.heap (mhx (Ecdsa.privSerialise r.val.1) ++ " " ++ mptStr r.val.2))
+  | "mem.newmaster", [] =>
+    let r := readOnly (fun seed => Bip32.newMaster mpr seed [0x04, 0x88, 0xad, 0xe4]) w.heap w.s
+    some (okLine r.heap (match r.val with | .ok k => mhx (Bip32.toString mpr k) | .error _ => "err"))
+  | "mem.b58enc", [] =>
+    let r := readOnly Base58.encode w.heap w.s
+    some (okLine r.heap (mhx r.val))
+  | "mem.hash160", [] =>
+    let r := readOnly mpr.hash160 w.heap w.s
+    some (okLine r.heap (mhx r.val))
+  | "mem.naf", [] =>
+    let r := naf w.heap w.s
+    some (okLine r.heap (mhx (r.heap.read r.val.1) ++ " " ++ mhx (r.heap.read r.val.2)))
+  | "mem.recover", [hsh] => do
+    -- two windows: the signature in array 0, the hash in array 1 (same prefix and spare)
+    let hsh ← munhex hsh
+    let h : Heap := ⟨#[mkBacking p spare data, mkBacking p spare hsh]⟩
+    let sg := mkWindow 0 p spare data
+    let hs := mkWindow 1 p spare hsh
+    let res := Ecdsa.recoverCompact (h.read sg) (h.read hs)
+    pure ("ok " ++ mhx (h.get 0) ++ " " ++ mhx (h.get 1) ++ " " ++
+      (match res with | some (q, c) => mptStr q ++ " " ++ mb2s c | none => "err"))
+  | "mem.xkstring", [isPriv] =>
+    let (h, k) := mkXKey p spare data (isPriv == "1")
+    let r := xkeyString mpr h k
+    some (okLine r.heap (agree (some r.val) (some (Bip32.toString mpr (k.value h))) mhx))
+  | "mem.xkchild", [isPriv, i] => do
+    let i ← i.toNat?
+    let (h, k) := mkXKey p spare data (isPriv == "1")
+    let r := childHmac mpr h k i
+    pure (okLine r.heap (match Bip32.child mpr (k.value h) i with
+      | .ok c => mhx (Bip32.toString mpr c)
+      | .error _ => "err"))
+  | _, _ => none
+
+def runMemOp (op : String) (args : List String) : Option String :=
+  match args with
+  | p :: spare :: data :: rest => do
+    if !op.startsWith "mem." then none
+    let p ← p.toNat?; let spare ← spare.toNat?; let data ← munhex data
+    runMemOp' op p spare data rest
+  | _ => none
 
 end Driver
